@@ -144,6 +144,21 @@ func main() {
 		f := f
 		stdouts = append(stdouts, stdoutV{"missing:" + f, false, func(string) string { return metaJSON(name, f, "1.0") }, 0})
 	}
+	for _, f := range []string{"name", "description", "version", "url", "supportedContractVersions", "capabilities"} {
+		f := f
+		// present, but empty: "" / [] - a mandatory field without content is not present in any useful sense
+		stdouts = append(stdouts, stdoutV{"missing:" + f + "-present-but-empty", false, func(string) string {
+			var m map[string]any
+			json.Unmarshal([]byte(metaJSON(name, "", "1.0")), &m)
+			if _, isList := m[f].([]any); isList {
+				m[f] = []any{}
+			} else {
+				m[f] = ""
+			}
+			b, _ := json.Marshal(m)
+			return string(b)
+		}, 0})
+	}
 	stdouts = append(stdouts,
 		stdoutV{"wrong-name", false, func(string) string { return metaJSON("someone-else", "", "1.0") }, 0},
 		stdoutV{"wrong-name-letter-case", false, func(string) string { return metaJSON(strings.ToUpper(name[:1])+name[1:], "", "1.0") }, 0},
@@ -176,6 +191,10 @@ func main() {
 	stderrs := []stderrV{{"empty", "", 0}, {"non-json", "fatal: something broke\n", 0}, {"huge", "", 2 << 30}}
 	for _, c := range errCodes {
 		stderrs = append(stderrs, stderrV{"structured:" + c, fmt.Sprintf(`{"errorCode":%q,"errorMessage":"scripted %s message","errorMetadata":{"k":"v"}}`, c, c), 0})
+	}
+	// a structured error that carries one more member than the three the contract names (a newer plugin, a vendor field)
+	for _, c := range errCodes[2:4] {
+		stderrs = append(stderrs, stderrV{"structured:" + c, fmt.Sprintf(`{"errorCode":%q,"errorMessage":"scripted %s message","errorMetadata":{"k":"v"},"errorDetails":{"traceId":"abc"}}`, c, c), 0})
 	}
 	// the same structured errors pretty-printed over several lines (a plugin written in a language whose JSON encoder
 	// indents by default): still the plugin's own structured error
@@ -417,6 +436,7 @@ func main() {
 	lib.Parallel(len(big), 3, func(i int) { run(big[i]) }, r.PanicViolation("harness"))
 	concurrentCalls(r, scratch, workerCopy, wb)
 	symlinkedExecutable(r, scratch, workerCopy, wb)
+	shortCallBesideLongOnes(r, scratch, workerCopy, wb)
 	r.RequireAtLeast("calls-succeeded", 5)
 	r.RequireAtLeast("error-typing-checked", 20)
 	r.RequireAtLeast("big-output-cases", 2)
@@ -570,4 +590,55 @@ func symlinkedExecutable(r *lib.Run, scratch, workerCopy string, wb []byte) {
 			r.Violation(map[string]string{"kind": "control-failed"}, "control: the plugin bar itself does not answer: "+err.Error(), nil)
 		}
 	}
+}
+
+// shortCallBesideLongOnes: eight calls on a plugin that sleeps for a minute are in flight under contexts that live on;
+// a ninth call with a 500 ms deadline (and a tenth that is cancelled after 500 ms) must still return within the bound
+// after ITS context ended - wherever it is waiting, for its process or for anything else.
+func shortCallBesideLongOnes(r *lib.Run, scratch, workerCopy string, wb []byte) {
+	dir := filepath.Join(scratch, "busy", "slow")
+	os.MkdirAll(dir, 0o755)
+	exe := filepath.Join(dir, "notation-slow")
+	if err := os.Link(workerCopy, exe); err != nil {
+		os.WriteFile(exe, wb, 0o755)
+	}
+	bj, _ := json.Marshal(map[string]behavior{"*": {SleepMS: 60000, Stdout: `{"keyId":"k","keySpec":"EC-256"}`}})
+	os.WriteFile(exe+".behavior.json", bj, 0o644)
+	p, err := plugin.NewCLIPlugin(context.Background(), "slow", exe)
+	if err != nil {
+		panic(err)
+	}
+	longCtx, stopLong := context.WithCancel(context.Background())
+	var wg sync.WaitGroup
+	for i := 0; i < 8; i++ {
+		wg.Add(1)
+		go func() {
+			defer wg.Done()
+			p.DescribeKey(longCtx, &pf.DescribeKeyRequest{ContractVersion: "1.0", KeyID: "k"})
+		}()
+	}
+	time.Sleep(300 * time.Millisecond) // let them start their processes
+	for _, how := range []string{"deadline", "cancel"} {
+		ctx, cancel := context.WithTimeout(context.Background(), 500*time.Millisecond)
+		if how == "cancel" {
+			ctx, cancel = context.WithCancel(context.Background())
+			time.AfterFunc(500*time.Millisecond, cancel)
+		}
+		t0 := time.Now()
+		done := make(chan error, 1)
+		go func() { _, err := p.DescribeKey(ctx, &pf.DescribeKeyRequest{ContractVersion: "1.0", KeyID: "k"}); done <- err }()
+		r.Eval("short-call-beside-long-ones|" + how)
+		r.Event("short-calls-beside-long-ones")
+		select {
+		case <-done:
+			if d := time.Since(t0); d > 500*time.Millisecond+maxAfterCtxMS*time.Millisecond {
+				r.Violation(map[string]string{"kind": "no-bounded-return", "timing": "beside-long-calls", "ctx": how}, fmt.Sprintf("a call whose context ended after 500 ms (%s) returned after %v while 8 other calls were in flight", how, d), nil)
+			}
+		case <-time.After(500*time.Millisecond + maxAfterCtxMS*time.Millisecond):
+			r.Violation(map[string]string{"kind": "no-bounded-return", "timing": "beside-long-calls", "ctx": how}, fmt.Sprintf("a call whose context ended after 500 ms (%s) had not returned %d s later while 8 other calls were in flight under longer-lived contexts", how, maxAfterCtxMS/1000), nil)
+		}
+		cancel()
+	}
+	stopLong()
+	wg.Wait()
 }
